@@ -265,8 +265,8 @@ def profile_for(pid, tier):
     if pid == "C12":
         G["root_kinds"] = {"scan": 5, "accumulate": 1, "reduce": 1, "iterate": 1, "iterate_final": 1, "static": 1, "dimap": 1}
         P["ops"].update({"index_edit": 9, "regenerate": 4, "update": 4, "undo": 3})
-        G["scan_editable"] = 0.7
-        G["lens"] = [2, 2, 3, 3, 1]
+        G["scan_editable"] = 0.85
+        G["lens"] = [2, 3, 3, 4, 1]
     elif pid == "C11":
         G["root_kinds"] = {"vmap": 5, "repeat": 3, "static": 1, "dimap": 1}
         P["ops"].update({"index_edit": 4, "importance": 5})
@@ -357,9 +357,13 @@ def profile_for(pid, tier):
         G["vec_static_inner"] = 0.7
     elif pid == "C33":
         P["ops"].update({"abort": 8})
-        G["kinds"].update({"switch": 5, "or_else": 2})
-        G["shared_names"] = 0.6
-        G["addr_styles"] = {"str": 4, "tuple": 4, "mixed": 0}
+        G["kinds"].update({"switch": 6, "or_else": 2, "vmap": 5})
+        G["root_kinds"] = {"switch": 6, "static": 6, "or_else": 2, "mix": 1, "vmap": 2, "scan": 1, "dimap": 1}
+        G["nest"] = 0.6
+        G["shared_names"] = 0.9
+        G["addr_styles"] = {"str": 3, "tuple": 6, "mixed": 0}
+        P["ops"].update({"abort": 24})
+        P["n_steps"] = (7, 11) if tier == "quick" else (10, 16)
     elif pid == "C35":
         P["ops"].update({"importance": 6, "update": 6})
         P["perts"].update({"enc:mask-true": 5, "enc:mask-true-traced": 6, "enc:mask-false": 6})
@@ -673,6 +677,8 @@ def gen_session(session_seed, pid, tier, profile=None):
             kinds_ab = ["missing", "stray", "unsupported"]
             if pid == "C22":
                 kinds_ab += ["reuse", "reuse", "reuse-hier"]
+            if pid == "C33":
+                kinds_ab += ["stray"] * 4
             kind = rng.choice(kinds_ab)
             st = {"op": "abort", "kind": kind, "src": src["name"], "key": key()}
             if kind in ("reuse", "reuse-hier"):
@@ -682,7 +688,7 @@ def gen_session(session_seed, pid, tier, profile=None):
             if kind == "missing":
                 st["drop"] = rng.random()
             elif kind == "stray":
-                st["stray"] = gen_stray(rng, node)
+                st["stray"] = gen_stray(rng, node, index_first=(pid == "C33"))
             steps.append(st)
     # replicas and their perturbation schedules
     replicas = [{"id": 0, "perts": [[] for _ in steps]}]
@@ -712,11 +718,14 @@ def gen_session(session_seed, pid, tier, profile=None):
     }
 
 
-def gen_stray(rng, node):
+def gen_stray(rng, node, index_first=False):
     """A constraint mixing valid addresses with addresses outside the universe."""
     cm = constrainable(node)
     addrs = sorted(cm, key=lambda a: [str(c) for c in a])
-    addrs = [a for a in addrs if a and isinstance(a[0], str)]
+    if not index_first:
+        addrs = [a for a in addrs if a and isinstance(a[0], str)]
+    else:
+        addrs = [a for a in addrs if a]
     ents = []
     for a in addrs:
         if rng.random() < 0.4:
